@@ -216,6 +216,9 @@ def _q(n, d):
 
 def norm(x):
     """reduce every Q node; sort dict-like results by key"""
+    if x is True or x is False:
+        # Python's True == 1 and False == 0: booleans get their own node so that == is type-strict
+        return {"t": "True" if x else "False", "a": []}
     if isinstance(x, dict):
         if x.get("t") == "Q":
             return _q(x["a"][0], x["a"][1])
@@ -335,7 +338,8 @@ MANIFEST = {
             "cpuN lines of /proc/stat, cpu_count(cores) = distinct topology lists, else sum over packages of 'cpu cores'. Sensors "
             "visible only below /sys/devices/platform/coretemp.* and fans of both directory nestings are reported (every layout). "
             "Histories of several queries over a changing tree in one process are checked step by step (no memory between calls). "
-            "Battery attributes are signed integers (sign, blanks, 0, -0): read without TypeError/ValueError, seconds from the magnitude "
+            "Result TYPES are part of every comparison (documented BatteryTime constants vs plain int, float vs int, bool identity, "
+            "named tuple classes and field order; theorem C19_battery_types). Battery attributes are signed integers (sign, blanks, 0, -0): read without TypeError/ValueError, seconds from the magnitude "
             "of power_now/current_now. Refuted-theorems record the seven defects found and repaired (code before 60747a2, e09e22a, "
             "3a32a00, d196a16, 64999d5, 1b69de5, 90bacb2). "
             "The hand-written model is tied to the code by executing both (vm_compute vs the real psutil over a fake /sys and "
